@@ -408,7 +408,7 @@ func c12R6(c *Ctx, fns []*ssa.Function) {
 		return
 	}
 	flow := c11NewFlow(c, roles, fns)
-	permIdx := map[string]int{"os.MkdirAll": 1, "os.Mkdir": 1, "os.OpenFile": 2}
+	permIdx := map[string]int{"os.MkdirAll": 1, "os.Mkdir": 1, "os.OpenFile": 2, "os.Create": -1} // os.Create: fixed 0666, no way to carry the header mode
 	count := map[string]int{}
 	for _, s := range Inventory(fns, func(n string) bool { _, ok := permIdx[n]; return ok }) {
 		if s.Callee == "os.OpenFile" {
@@ -431,7 +431,7 @@ func c12R6(c *Ctx, fns []*ssa.Function) {
 			key += "#" + string(rune('0'+count[key]))
 		}
 		c12R7Site(c, fns, key, s)
-		ok := c12ModeFromHeader(s.Call.Common().Args[permIdx[s.Callee]], fns, 0, map[ssa.Value]bool{})
+		ok := permIdx[s.Callee] >= 0 && c12ModeFromHeader(s.Call.Common().Args[permIdx[s.Callee]], fns, 0, map[ssa.Value]bool{})
 		c.Check(R6, key, s.Call.Pos(), ok, ifelse(ok, "the mode of the created entry derives from the tar header [in "+FnName(s.Fn)+"]",
 			s.Callee+" [in "+FnName(s.Fn)+"] creates an archive entry with a mode that does not come from the entry's tar header (a constant, or a value also used for non-archive paths): "+
 				"directory / file modes of the packed tree are lost on unpack unless PreservePermissions is set"))
@@ -556,10 +556,27 @@ func c12TypeflagMembership(cond ssa.Value) (map[int64]bool, bool) {
 	return set, len(set) > 0
 }
 
-// c12ChmodSkipped explores fn from just behind instruction `from`.
+// c12HasChmod: fn (or an in-package callee, depth 2) contains a chmod at all —
+// a helper that merely never returns successfully must not count as "chmods".
+func c12HasChmod(fn *ssa.Function, fns []*ssa.Function, depth int) bool {
+	if len(CallsTo(fn, "os.Chmod", "(*os.File).Chmod")) > 0 {
+		return true
+	}
+	if depth >= 2 {
+		return false
+	}
+	for _, call := range Calls(fn, func(string) bool { return true }) {
+		if g := StaticCallee(call); g != nil && g != fn && len(g.Blocks) > 0 && fnPkgPath(g) == fnPkgPath(fn) && c12HasChmod(g, fns, depth+1) {
+			return true
+		}
+	}
+	return false
+}
+
+// c12ChmodSkipped explores fn from just behind instruction `from` (from == nil: from the entry of fn).
 func c12ChmodSkipped(fns []*ssa.Function, flags map[*ssa.Function]map[ssa.Value]bool, fn *ssa.Function, from ssa.Instruction, path ssa.Value, handleTuple ssa.Value, kind *int64, depth int) (bool, string) {
 	// the entry kind: a Typeflag == k edge dominating the site
-	if kind == nil {
+	if kind == nil && from != nil {
 		for _, i := range Ifs(fn) {
 			cond, t, f := ifEdges(i)
 			if k, eq, ok := c12TypeflagTest(cond); ok {
@@ -592,11 +609,32 @@ func c12ChmodSkipped(fns []*ssa.Function, flags map[*ssa.Function]map[ssa.Value]
 			chmods[call.(ssa.Instruction)] = true
 		}
 	}
+	// … or a call of an in-package helper that is handed the entry's path and, explored from its entry under the same
+	// assumptions, never skips the chmod (restoreMetadata-style helpers)
+	if depth < 3 {
+		for _, call := range Calls(fn, func(string) bool { return true }) {
+			H := StaticCallee(call)
+			if _, isDefer := call.(*ssa.Defer); isDefer || H == nil || H == fn || len(H.Blocks) == 0 || fnPkgPath(H) != fnPkgPath(fn) || call == ssa.CallInstruction(nil) {
+				continue
+			}
+			if in, ok := call.(ssa.Instruction); ok && in == from {
+				continue
+			}
+			for i, a := range call.Common().Args {
+				if i >= len(H.Params) || !c11SameLoc(a, path) {
+					continue
+				}
+				if sk, _ := c12ChmodSkipped(fns, flags, H, nil, H.Params[i], nil, kind, depth+1); !sk && c12HasChmod(H, fns, 0) {
+					chmods[call.(ssa.Instruction)] = true
+				}
+			}
+		}
+	}
 	// targets: the next entry (header of the innermost loop around the site) and successful returns
 	var loopHead ssa.Instruction
 	size := 0
 	for _, l := range Loops(fn) {
-		if l.Contains(from) && (loopHead == nil || len(l.Blocks) < size) {
+		if from != nil && l.Contains(from) && (loopHead == nil || len(l.Blocks) < size) {
 			loopHead, size = l.Header.Instrs[0], len(l.Blocks)
 		}
 	}
@@ -726,7 +764,11 @@ func c12ChmodSkipped(fns []*ssa.Function, flags map[*ssa.Function]map[ssa.Value]
 			walk(sc, b, 0, phis)
 		}
 	}
-	walk(from.Block(), nil, instrIndex(from)+1, map[*ssa.Phi]ssa.Value{})
+	if from != nil {
+		walk(from.Block(), nil, instrIndex(from)+1, map[*ssa.Phi]ssa.Value{})
+	} else {
+		walk(fn.Blocks[0], nil, 0, map[*ssa.Phi]ssa.Value{})
+	}
 	if !skipped {
 		return false, ""
 	}
@@ -1231,7 +1273,7 @@ func c12R2(c *Ctx, fns []*ssa.Function) {
 		en := FnName(E)
 		var xcall *ssa.Call
 		for _, call := range Calls(E, func(string) bool { return true }) {
-			if g := StaticCallee(call); g != nil && len(CallsTo(g, "archive/tar.NewReader")) > 0 {
+			if g := StaticCallee(call); g != nil && inModule(g) && len(g.Blocks) > 0 && c11Reaches(g, "archive/tar.NewReader", 2) {
 				xcall, _ = call.(*ssa.Call)
 			}
 		}
@@ -2532,6 +2574,122 @@ func c12PredicateTolerates(P *ssa.Function, argIdx int, tolerated []string) map[
 	return out
 }
 
+// c12TableTolerates: pc is slices.ContainsFunc(table, func(x error) bool { return errors.Is(e, x) })
+// or slices.Contains(table, e) with e the error under test and table a literal
+// (local or package-level, never reassigned) whose elements are all tolerated sentinels.
+func c12TableTolerates(pc *ssa.Call, al map[ssa.Value]bool, tolerated []string) bool {
+	nm := CalleeName(pc)
+	if (nm != "slices.ContainsFunc" && nm != "slices.Contains") || len(pc.Call.Args) != 2 {
+		return false
+	}
+	tol := map[string]bool{}
+	for _, t := range tolerated {
+		tol[t] = true
+	}
+	elemsOK := func(v ssa.Value) bool {
+		var els []ssa.Value
+		c11SliceElems(v, &els)
+		if len(els) == 0 {
+			return false
+		}
+		for _, e := range els {
+			if !tol[sentinelName(e)] {
+				return false
+			}
+		}
+		return true
+	}
+	okTable := false
+	for _, r := range Roots(pc.Call.Args[0]) {
+		if _, isSlice := r.(*ssa.Slice); isSlice {
+			if !elemsOK(r) {
+				return false
+			}
+			okTable = true
+			continue
+		}
+		ld, isLoad := r.(*ssa.UnOp)
+		if !isLoad || ld.Op != token.MUL {
+			return false
+		}
+		g, isGlobal := ld.X.(*ssa.Global)
+		if !isGlobal || g.Pkg == nil {
+			return false
+		}
+		found := false
+		if initFn := g.Pkg.Func("init"); initFn != nil {
+			AllInstrs(initFn, func(in ssa.Instruction) {
+				if st, isStore := in.(*ssa.Store); isStore && st.Addr == ssa.Value(g) && elemsOK(st.Val) {
+					found = true
+				}
+			})
+		}
+		for _, m := range g.Pkg.Members {
+			if mf, isFn := m.(*ssa.Function); isFn && mf.Name() != "init" {
+				for _, f := range append([]*ssa.Function{mf}, Anons(mf)...) {
+					AllInstrs(f, func(in ssa.Instruction) {
+						if st, isStore := in.(*ssa.Store); isStore && st.Addr == ssa.Value(g) {
+							found = false
+						}
+					})
+				}
+			}
+		}
+		if !found {
+			return false
+		}
+		okTable = true
+	}
+	if !okTable {
+		return false
+	}
+	if nm == "slices.Contains" {
+		return al[pc.Call.Args[1]]
+	}
+	// the predicate: errors.Is(e, x) with x its parameter and e the error under test (captured)
+	for _, r := range Roots(pc.Call.Args[1]) {
+		mc, ok := r.(*ssa.MakeClosure)
+		if !ok {
+			return false
+		}
+		g := mc.Fn.(*ssa.Function)
+		if len(g.Params) != 1 {
+			return false
+		}
+		for _, ret := range Returns(g) {
+			rs := Roots(ret.Results[0])
+			if len(rs) != 1 {
+				return false
+			}
+			is, ok := rs[0].(*ssa.Call)
+			if !ok || CalleeName(is) != "errors.Is" || len(is.Call.Args) != 2 || !c11SameRoots(is.Call.Args[1], g.Params[0]) {
+				return false
+			}
+			if !c11DerivesFrom(is.Call.Args[0], al) {
+				// the captured variable holding e
+				okCap := false
+				if ld, isLoad := is.Call.Args[0].(*ssa.UnOp); isLoad {
+					if fv, isFV := ld.X.(*ssa.FreeVar); isFV {
+						for _, b := range freeVarBindings(fv) {
+							if a, isAlloc := b.(*ssa.Alloc); isAlloc {
+								for _, st := range storesTo(a) {
+									if al[st.Val] {
+										okCap = true
+									}
+								}
+							}
+						}
+					}
+				}
+				if !okCap {
+					return false
+				}
+			}
+		}
+	}
+	return true
+}
+
 // c12ErrFlowWithPredicates: like ErrFlow with tolerated sentinels, where the
 // tolerance may be decided by a boolean helper taking the error.
 func c12ErrFlowWithPredicates(call ssa.CallInstruction, tolerated []string) (bool, string) {
@@ -2553,6 +2711,12 @@ func c12ErrFlowWithPredicates(call ssa.CallInstruction, tolerated []string) (boo
 		cond, t, f := ifEdges(i)
 		pc, ok := cond.(*ssa.Call)
 		if !ok {
+			continue
+		}
+		if c12TableTolerates(pc, al, tolerated) {
+			// slices.ContainsFunc(<table of sentinels>, func(s error) bool { return errors.Is(err, s) }) / slices.Contains(table, err)
+			cutT.Edges(t)
+			helper = CalleeName(pc) + " over a table of sentinels"
 			continue
 		}
 		P := StaticCallee(pc)
@@ -2699,6 +2863,10 @@ var c12Mutants = []Mutant{
 	{Name: "file-entry-mode-constant", File: "content/file/utils.go",
 		Old: "\t\t\terr = writeFile(filePath, tr, header.FileInfo().Mode(), buf)", New: "\t\t\terr = writeFile(filePath, tr, 0666, buf)",
 		Expect: "C12.R6.entry-mode-from-header|archive-entry|os.OpenFile"},
+	{Name: "empty-files-created-with-os-create", File: "content/file/utils.go",
+		Old:    "\t\t\terr = writeFile(filePath, tr, header.FileInfo().Mode(), buf)",
+		New:    "\t\t\tif header.Size == 0 {\n\t\t\t\tvar f *os.File\n\t\t\t\tif f, err = os.Create(filePath); err == nil {\n\t\t\t\t\terr = f.Close()\n\t\t\t\t}\n\t\t\t} else {\n\t\t\t\terr = writeFile(filePath, tr, header.FileInfo().Mode(), buf)\n\t\t\t}",
+		Expect: "C12.R6.entry-mode-from-header|archive-entry|os.Create"},
 	// R7
 	{Name: "preserved-mode-only-for-files", File: "content/file/utils.go",
 		Old: "\t\tif preservePermissions && (header.Typeflag == tar.TypeReg || header.Typeflag == tar.TypeDir) {", New: "\t\tif preservePermissions && header.Typeflag == tar.TypeReg {",
